@@ -255,6 +255,41 @@ func (c *Ctx) ruleAtomic(rule string) {
 							}
 						}
 					}
+					// ... or calls, in that section, a helper of the client that scans it (and leaves the mutex alone)
+					if !found {
+						var scans func(h *ssa.Function, depth int) bool
+						scans = func(h *ssa.Function, depth int) bool {
+							if h == nil || depth > 2 || !c.methodOrClosureOf(h, ro.clientT) {
+								return false
+							}
+							ranges := false
+							for _, hb := range h.Blocks {
+								for _, hin := range hb.Instrs {
+									switch y := hin.(type) {
+									case *ssa.Range:
+										if strings.HasSuffix(c.M.ValPath(y.X), "."+ro.pending) {
+											ranges = true
+										}
+									case *ssa.Call:
+										if mutexOp(&y.Call) != "" && strings.HasSuffix(c.M.AddrPath(y.Call.Args[0]), "."+mutex) {
+											return false
+										}
+										if !ranges && scans(core.StaticBody(&y.Call), depth+1) {
+											ranges = true
+										}
+									}
+								}
+							}
+							return ranges
+						}
+						for _, b2 := range fn.Blocks {
+							for _, in2 := range b2.Instrs {
+								if call, ok := in2.(*ssa.Call); ok && c.sectionOf(fn, call, lock) == sec && scans(core.StaticBody(&call.Call), 0) {
+									found = true
+								}
+							}
+						}
+					}
 					if found {
 						c.R.Ok(rule, k, pos, "running flag cleared", "the critical section that clears the flag also scans the pending table (decides idle, or fails every waiter): decision and flag update are atomic")
 					} else {
@@ -550,6 +585,16 @@ func (c *Ctx) mustDone(fn *ssa.Function, w wgRef, depth int) bool {
 		if x, ok := c.wgOfCall(ci.Common(), "Done"); ok && sameWG(x, w) {
 			return true
 		}
+		if _, isGo := ci.(*ssa.Go); isGo {
+			// a goroutine that always calls Done takes the count over
+			tgts := c.M.Callees(ci.Common())
+			for _, tgt := range tgts {
+				if !c.mustDone(tgt, w, depth+1) {
+					return false
+				}
+			}
+			return len(tgts) > 0
+		}
 		// every function the call may run always calls Done
 		callees := c.M.Callees(ci.Common())
 		for _, callee := range callees {
@@ -587,10 +632,8 @@ func (c *Ctx) mustDone(fn *ssa.Function, w wgRef, depth int) bool {
 			o := st
 			for _, in := range b.Instrs {
 				if ci, ok := in.(ssa.CallInstruction); ok {
-					if _, isGo := in.(*ssa.Go); !isGo {
-						if _, isDefer := in.(*ssa.Defer); !isDefer && isDone(ci) {
-							o = true
-						}
+					if _, isDefer := in.(*ssa.Defer); !isDefer && isDone(ci) {
+						o = true
 					}
 				}
 			}
@@ -611,10 +654,8 @@ func (c *Ctx) mustDone(fn *ssa.Function, w wgRef, depth int) bool {
 				break
 			}
 			if ci, ok := in.(ssa.CallInstruction); ok {
-				if _, isGo := in.(*ssa.Go); !isGo {
-					if _, isDefer := in.(*ssa.Defer); !isDefer && isDone(ci) {
-						st = true
-					}
+				if _, isDefer := in.(*ssa.Defer); !isDefer && isDone(ci) {
+					st = true
 				}
 			}
 		}
@@ -759,6 +800,18 @@ func (c *Ctx) ruleWG(rule string) {
 					case *ssa.Call:
 						if x, ok := c.wgOfCall(&y.Call, "Done"); ok && sameWG(x, w) {
 							return true
+						}
+						// a helper that always releases the count (calls Done, or starts the goroutine that does)
+						if callees := c.M.Callees(&y.Call); len(callees) > 0 {
+							all := true
+							for _, callee := range callees {
+								if !c.mustDone(callee, w, 0) {
+									all = false
+								}
+							}
+							if all {
+								return true
+							}
 						}
 					case *ssa.Go:
 						for _, tgt := range c.M.Callees(y.Common()) {
@@ -2042,6 +2095,72 @@ func (c *Ctx) deliverResultClause(rule string, ro *atpRoles, deliver map[*ssa.Fu
 			}
 		}
 	}
+	failsAll := func(in2 ssa.Instruction) bool {
+		y, ok := in2.(*ssa.Call)
+		if !ok {
+			return false
+		}
+		for _, callee := range c.M.Callees(&y.Call) {
+			if mustFailAll[callee] {
+				return true
+			}
+		}
+		return false
+	}
+	// ... or, in a helper that decides for the handler, return an error that the handler answers by failing
+	// all waiters
+	errReturn := func(h *ssa.Function, in2 ssa.Instruction) bool {
+		r, ok := in2.(*ssa.Return)
+		if !ok {
+			return false
+		}
+		ei := core.ErrorResultIndex(h.Signature)
+		return ei >= 0 && ei < len(r.Results) && c.M.ProvablyNonNilError(core.RetVal(r, ei), r.Block())
+	}
+	// the handler answers every error of the helper by failing all waiters
+	answered := func(h *ssa.Function) bool {
+		sites := core.PlainSites(h)
+		ei := core.ErrorResultIndex(h.Signature)
+		if len(sites) == 0 || ei < 0 {
+			return false
+		}
+		for _, site := range sites {
+			var errBlock *ssa.BasicBlock
+			var errV ssa.Value = site
+			if h.Signature.Results().Len() > 1 {
+				errV = nil
+				if site.Referrers() != nil {
+					for _, r := range *site.Referrers() {
+						if ex, ok := r.(*ssa.Extract); ok && ex.Index == ei {
+							errV = ex
+						}
+					}
+				}
+			}
+			if errV == nil || errV.Referrers() == nil {
+				return false
+			}
+			for _, r := range *errV.Referrers() {
+				if bin, ok := r.(*ssa.BinOp); ok {
+					if _, neq, isNil := core.NilCmp(bin); isNil && bin.Referrers() != nil {
+						for _, r2 := range *bin.Referrers() {
+							if ifi, ok := r2.(*ssa.If); ok {
+								if neq {
+									errBlock = ifi.Block().Succs[0]
+								} else {
+									errBlock = ifi.Block().Succs[1]
+								}
+							}
+						}
+					}
+				}
+			}
+			if errBlock == nil || !everyPathSat(errBlock, func(_ *ssa.BasicBlock, in2 ssa.Instruction) bool { return failsAll(in2) }) {
+				return false
+			}
+		}
+		return true
+	}
 	inTree := c.M.Reachable([]*ssa.Function{ro.readLoop}, nil)
 	n := 0
 	for _, fn := range c.M.SortedFuncs(c.scopePkg("atp")) {
@@ -2098,7 +2217,7 @@ func (c *Ctx) deliverResultClause(rule string, ro *atpRoles, deliver map[*ssa.Fu
 				}
 				// a delivery that reports whether it reached a waiting call, tested by the handler: on the "did not"
 				// outcome every path must fail all waiters
-				testedDelivery := func(x *ssa.Call) bool {
+				testedDelivery := func(x *ssa.Call, in *ssa.Function, upwards bool) bool {
 					if x.Referrers() == nil {
 						return false
 					}
@@ -2109,32 +2228,37 @@ func (c *Ctx) deliverResultClause(rule string, ro *atpRoles, deliver map[*ssa.Fu
 						}
 						notDelivered := ifi.Block().Succs[1]
 						return everyPathSat(notDelivered, func(_ *ssa.BasicBlock, in2 ssa.Instruction) bool {
-							y, ok := in2.(*ssa.Call)
-							if !ok {
-								return false
-							}
-							for _, callee := range c.M.Callees(&y.Call) {
-								if mustFailAll[callee] {
-									return true
-								}
-							}
-							return false
+							return failsAll(in2) || (upwards && errReturn(in, in2))
 						})
 					}
 					return false
 				}
-				reaches := everyPathSat(okBlock, func(blk *ssa.BasicBlock, in ssa.Instruction) bool {
-					x, ok := in.(*ssa.Call)
-					if !ok {
-						return false
-					}
-					for _, callee := range c.M.Callees(&x.Call) {
-						if mustFailAll[callee] || (deliver[callee] && (found(blk) || testedDelivery(x))) {
+				var sat func(in *ssa.Function, upwards bool, depth int) func(blk *ssa.BasicBlock, in2 ssa.Instruction) bool
+				sat = func(in *ssa.Function, upwards bool, depth int) func(blk *ssa.BasicBlock, in2 ssa.Instruction) bool {
+					return func(blk *ssa.BasicBlock, in2 ssa.Instruction) bool {
+						if upwards && errReturn(in, in2) {
 							return true
 						}
+						x, ok := in2.(*ssa.Call)
+						if !ok {
+							return false
+						}
+						for _, callee := range c.M.Callees(&x.Call) {
+							if mustFailAll[callee] || (deliver[callee] && (found(blk) || testedDelivery(x, in, upwards))) {
+								return true
+							}
+						}
+						// a helper of the client that decides for the handler: every path of it delivers, fails all waiters or
+						// returns an error, and the handler answers its errors by failing all waiters
+						if h := core.StaticBody(&x.Call); h != nil && depth < 2 && h != in && c.methodOrClosureOf(h, ro.clientT) && len(h.Blocks) > 0 {
+							if answered(h) && everyPathSat(h.Blocks[0], sat(h, true, depth+1)) {
+								return true
+							}
+						}
+						return false
 					}
-					return false
-				})
+				}
+				reaches := everyPathSat(okBlock, sat(fn, false, 0))
 				if reaches {
 					c.R.Ok(rule, k, c.M.InstrPos(call), "a work-done message that decoded", "every path to the handler's return delivers to the run's entry where the pending table is known to hold one (or tests whether the delivery reached a waiting call, failing all waiters where it did not), or fails all waiters")
 				} else {
@@ -2231,6 +2355,18 @@ func (c *Ctx) deliverResultClause(rule string, ro *atpRoles, deliver map[*ssa.Fu
 								}
 								return false
 							})
+						}
+					}
+				}
+				if !tested {
+					// ... or hands an error up to a handler that answers it by failing all waiters
+					if refs := call.Referrers(); refs != nil && answered(fn) {
+						for _, r := range *refs {
+							if ifi, isIf := r.(*ssa.If); isIf {
+								tested = everyPathSat(ifi.Block().Succs[1], func(_ *ssa.BasicBlock, in2 ssa.Instruction) bool {
+									return failsAll(in2) || errReturn(fn, in2)
+								})
+							}
 						}
 					}
 				}
